@@ -1,0 +1,16 @@
+//go:build verif
+
+// Contracts for package model, read by /verif/govc.
+package model
+
+// The transaction id travels in the context.  ctxTxId is the abstract reading of it;
+// the two three-line helpers below are trusted to implement it with context.WithValue / Value.
+//@ pure func ctxTxId(ctx context.Context) string
+
+//@ func GetTxId
+//@   trusted
+//@   ensures id: result == ctxTxId(ctx) && result != ""
+
+//@ func StoreTxId
+//@   trusted
+//@   ensures id: ctxTxId(result) == ite(txId == "", MainTxId, txId) && result != nil
